@@ -358,6 +358,19 @@ theorem espec_nesting_productions_test :
     parseX (espWrap "b:1=b:{16K*=e:{0123456789abcdef,00,b:" "}}" 16 "n") = (.deep (16 * 37), 65) := by
   decide +kernel
 
+open Cascette.Model.ParseFronts.ESpec in
+/-- TEST (kernel evaluation; fix 2261323): a block size whose K/M-scaled value does not fit u64 is
+refused (it wrapped in release builds and panicked with overflow checks), in the braced table and
+in the brace-less shorthand; the largest sizes that fit are accepted. -/
+theorem espec_size_unit_overflow_test :
+    parseX "b:{18014398509481983K=n}".toList = (.ok, 2) ∧
+    parseX "b:{18014398509481984K=n}".toList = (.other, 1) ∧
+    parseX "b:{17592186044415M=n}".toList = (.ok, 2) ∧
+    parseX "b:{17592186044416M=n}".toList = (.other, 1) ∧
+    parseX "b:18446744073709551615K=n".toList = (.other, 1) ∧
+    parseX "b:18446744073709551615=n".toList = (.ok, 2) := by
+  decide +kernel
+
 open Cascette.Model in
 /-- LOCAL HEADER `blte_size` (fix 84a8898, saturating): never above the stored size — it cannot wrap. -/
 theorem lhdr_blte_size_le (b : Bytes) : ParseFronts.LHdr.blteSize b ≤ (ParseFronts.LHdr.sizeWithHeader b).toNat :=
@@ -386,6 +399,41 @@ bounded by the file length. -/
 theorem lru_no_panic_alloc_bounded (H : Integrity.Hash) (szEntry : Nat) (hs : szEntry ≤ 64) (d : Bytes) :
     (ParseFronts.Lru.front H szEntry d).verdict ≠ .panic ∧ ∀ a ∈ (ParseFronts.Lru.front H szEntry d).allocs, a ≤ 4 * d.length :=
   Proofs.ParseFronts.Lru.front_spec H szEntry hs d
+
+open Cascette.Model in
+/-- LRU `load_from_disk` (fixes b5d4e35, 1b8e830): a table the link check accepts lets
+`for_each_entry` return — following `next` from the LRU tail, indexing the table as the code does,
+reaches the sentinel within `len + 1` steps and never leaves the table; for every table. (The check
+itself indexes with `get`, it has no panicking branch.) -/
+theorem lru_load_walk_ends (f : Integrity.Lru.File) (h : ParseFronts.Lru.linksValid f = true) :
+    ParseFronts.Lru.chain f.entries (f.entries.length + 1) f.tail = some true := by
+  unfold ParseFronts.Lru.linksValid at h
+  split at h
+  · cases h
+  · rename_i last seen hw
+    exact Proofs.ParseFronts.Lru.walk_chain f.entries _ _ _ _ _ hw
+
+/-- a table with the given head, tail and (prev, next, keyed?) entries. -/
+def lruTable (head tail : Nat) (links : List (Nat × Nat × Bool)) : Cascette.Model.Integrity.Lru.File :=
+  { version := 1, hash := [], head := head, tail := tail,
+    entries := links.map (fun l =>
+      { prev := l.1, next := l.2.1, flags := 0, ekey := if l.2.2 then List.replicate 9 1 else List.replicate 9 0 }) }
+
+open Cascette.Model.ParseFronts.Lru in
+/-- TEST: a 2-entry list (with a free slot) is accepted; refused are: a tail out of range, a `next`
+out of range, a `prev` out of range, a `next` cycle (the four crafted shapes that panicked / hung
+before the fix), a tail that skips the first entry (in range and acyclic, yet `touch`/`remove`
+spliced it into a self-loop), a head that is not the last entry, a keyed entry off the list. -/
+theorem lru_load_links_test :
+    linksValid (lruTable 1 0 [(sentinel, 1, true), (0, sentinel, true), (sentinel, sentinel, false)]) = true ∧
+    linksValid (lruTable 1 7 [(sentinel, 1, true), (0, sentinel, true)]) = false ∧
+    linksValid (lruTable 1 0 [(sentinel, 9, true), (0, sentinel, true)]) = false ∧
+    linksValid (lruTable 1 0 [(5, 1, true), (0, sentinel, true)]) = false ∧
+    linksValid (lruTable 1 0 [(sentinel, 1, true), (0, 0, true)]) = false ∧
+    linksValid (lruTable 0 1 [(1, sentinel, true), (2, 0, true), (sentinel, 1, true)]) = false ∧
+    linksValid (lruTable 0 0 [(sentinel, 1, true), (0, sentinel, true)]) = false ∧
+    linksValid (lruTable 0 0 [(sentinel, sentinel, true), (sentinel, sentinel, true)]) = false := by
+  decide +kernel
 
 open Cascette.Model in
 /-- RESIDENCY DB: whatever the page-count fields say (u32, never used to size anything), the pages
